@@ -106,6 +106,7 @@ def check(P, rep):
         rep.check(okr, 'C04.R4', 'execute:%s.%s:recipient' % (e.client, e.method), 'recipient is the decoded destination address (Address::from_xdr Ok)', esite(g, e), fmt(rcp)[:200])
     from rules.c16 import gateway_binding
     gateway_binding(P, rep, 'C04.R1')
+    storage_classes(P, rep, 'C04.R2', CN, {'TrustedChain': 'persistent', 'TokenIdConfigKey': 'persistent', 'Gateway': 'instance', 'ItsHubAddress': 'instance'})
     trys = [e for e in effects(g) if e.kind in ('xcall', 'invoke') and e.try_]
     rep.check(not trys, 'C04.R5', 'execute:no-try-calls', 'no non-trapping (try_) cross-contract call', entry_id(g), '; '.join(x.describe() for x in trys)[:200])
     rep.check(bool(tr) and g.success_needs((), edges(tr)), 'C04.R1', 'execute:success-needs-validation', 'every success exit lies behind the successful validation', entry_id(g))
